@@ -17,6 +17,10 @@ pub enum Action {
 	/// The node's store answers k more Persist calls synchronously and InProgress from then on (the switch the
 	/// Persist contract always allows, here in the middle of one deferred flush)
 	AsyncAfter(usize, u32),
+	/// The node's (remote / asynchronous) signer stops answering get_per_commitment_point until released
+	SignerOff(usize),
+	/// ... and answers again: the user calls ChannelManager::signer_unblocked
+	SignerOn(usize),
 	/// channel_monitor_updated(node, index of channel in sorted outstanding list, update id)
 	Complete(usize, usize, u64),
 	WriteManager(usize),
@@ -70,6 +74,8 @@ pub fn encode_action(a: &Action) -> String {
 		Action::Tick(n) => format!("tick:{}", n),
 		Action::AsyncOn(n) => format!("async:{}", n),
 		Action::AsyncAfter(n, k) => format!("asyncafter:{}:{}", n, k),
+		Action::SignerOff(n) => format!("signeroff:{}", n),
+		Action::SignerOn(n) => format!("signeron:{}", n),
 		Action::Complete(n, c, id) => format!("done:{}:{}:{}", n, c, id),
 		Action::WriteManager(n) => format!("wm:{}", n),
 		Action::Crash(n, c) => format!("crash:{}:{}", n, c),
@@ -112,6 +118,8 @@ pub fn decode_action(s: &str) -> Option<Action> {
 		},
 		"tick" => Action::Tick(rest.parse().ok()?),
 		"async" => Action::AsyncOn(rest.parse().ok()?),
+		"signeroff" => Action::SignerOff(rest.parse().ok()?),
+		"signeron" => Action::SignerOn(rest.parse().ok()?),
 		"asyncafter" => {
 			let v = nums(':');
 			Action::AsyncAfter(*v.get(0)? as usize, *v.get(1)? as u32)
@@ -225,6 +233,8 @@ pub struct Deviations {
 	pub async_persist: Option<u32>,
 	/// a deferred-mode node with several queued operations: its store turns asynchronous part-way through the next flush
 	pub async_after: Option<u32>,
+	/// the node's signer becomes unavailable (get_per_commitment_point) at any point, sticky until released
+	pub signer_block: Option<u32>,
 	/// issue the next operation before the protocol has quiesced
 	pub early_op: Option<u32>,
 	pub crash: Option<u32>,
@@ -259,6 +269,7 @@ impl Default for Deviations {
 			tick: None,
 			async_persist: None,
 			async_after: None,
+			signer_block: None,
 			early_op: Some(1),
 			crash: None,
 			crash_inside: None,
@@ -319,6 +330,8 @@ pub struct WorldSys {
 	pub max_holds: u32,
 	pub held_manager: Vec<bool>,
 	pub held_completions: Vec<bool>,
+	pub signer_off: Vec<bool>,
+	pub signer_blocks_done: u32,
 	pub completion_holds_done: u32,
 	/// scenario option: nodes listed in `held_events` at start keep their events unhandled until the
 	/// on-chain settling is over (the user is slow to call process_pending_events)
@@ -377,6 +390,8 @@ impl WorldSys {
 			max_holds: 1,
 			held_manager: vec![false; n],
 			held_completions: vec![false; n],
+			signer_off: vec![false; n],
+			signer_blocks_done: 0,
 			completion_holds_done: 0,
 			events_held_through_settle: false,
 			link_holds_done: 0,
@@ -440,6 +455,11 @@ impl WorldSys {
 		}
 		for (f, t) in self.held_links.iter() {
 			v.push(Action::ReleaseLink(*f, *t));
+		}
+		for i in 0..n {
+			if self.signer_off[i] {
+				v.push(Action::SignerOn(i));
+			}
 		}
 		// a stalled background task of a deferred-mode node may resume at any point
 		if !self.finished {
@@ -532,7 +552,7 @@ impl WorldSys {
 			// timer ticks stand for minutes: they are only taken when nothing else is left to do
 			Action::Op(i) if matches!(self.ops.get(*i), Some(Op::Ticks { .. })) => u32::MAX,
 			Action::Op(_) => self.dev.early_op.unwrap_or(u32::MAX),
-			Action::ReleaseEvents(_) | Action::ReleaseLink(..) | Action::ReleaseManager(_) => self.dev.early_release.unwrap_or(u32::MAX),
+			Action::ReleaseEvents(_) | Action::ReleaseLink(..) | Action::ReleaseManager(_) | Action::SignerOn(_) => self.dev.early_release.unwrap_or(u32::MAX),
 			Action::Complete(..) => self.dev.complete_reorder.unwrap_or(u32::MAX),
 			_ => self.dev.reorder.unwrap_or(u32::MAX),
 		}
@@ -758,6 +778,29 @@ impl WorldSys {
 		}
 	}
 
+	/// Switches `get_per_commitment_point` of every channel signer of node `n` off / on (the signers share their
+	/// state per channel keys id, like a remote signer would).
+	fn set_signer(&mut self, n: usize, on: bool) {
+		use lightning::util::test_channel_signer::SignerOp;
+		let tag = b'A' + n as u8;
+		let mut ids: Vec<[u8; 32]> = Vec::new();
+		for o in self.w.obs.iter() {
+			if let Obs::Sig(crate::base::SigEv::SignCounterpartyCommitment { node, keys_id, .. }) = o {
+				if *node == tag && !ids.contains(keys_id) {
+					ids.push(*keys_id);
+				}
+			}
+		}
+		for id in ids {
+			let sg = self.w.nodes[n].keys.derive_channel_keys(&id);
+			if on {
+				sg.enable_op(SignerOp::GetPerCommitmentPoint);
+			} else {
+				sg.disable_op(SignerOp::GetPerCommitmentPoint);
+			}
+		}
+	}
+
 	fn any_claimable(&self) -> bool {
 		self.w.nodes.iter().any(|n| n.mon.get_claimable_balances(&[]).iter().any(|b| b.claimable_amount_satoshis() > 0))
 	}
@@ -845,6 +888,18 @@ impl WorldSys {
 			Action::AsyncOn(n) => {
 				self.async_on[*n] = true;
 				self.w.nodes[*n].persist.set_async_all(true);
+			},
+			Action::SignerOff(n) => {
+				self.signer_blocks_done += 1;
+				self.signer_off[*n] = true;
+				self.set_signer(*n, false);
+				crate::runner::witness("signer-unavailable");
+			},
+			Action::SignerOn(n) => {
+				self.signer_off[*n] = false;
+				self.set_signer(*n, true);
+				self.w.nodes[*n].cm.signer_unblocked(None);
+				self.w.pump();
 			},
 			Action::AsyncAfter(n, k) => {
 				self.async_on[*n] = true;
@@ -1191,6 +1246,13 @@ impl System for WorldSys {
 			for i in 0..n {
 				if !self.async_on[i] {
 					out.push((Action::AsyncOn(i), c));
+				}
+			}
+		}
+		if let (Some(c), true) = (self.dev.signer_block, self.signer_blocks_done < 1) {
+			for i in 0..n {
+				if !self.signer_off[i] {
+					out.push((Action::SignerOff(i), c));
 				}
 			}
 		}
